@@ -278,12 +278,15 @@ var levelCodes = map[string]int32{
 	// user-registered corner cases: the lowest code an int32 can hold (a log4j-style "ALL"),
 	// and second names for codes that already have one (a built-in's and a custom level's)
 	"ALL": math.MinInt32, "NOTE": 300, "REVIEW": 450,
+	// a name that was registered twice: the second registration (code 444) is the one that counts
+	"SHIFTY": 444,
 }
 
 var customLevels = map[string]log.Level{}
 
 func init() {
-	for _, n := range []string{"VERBOSE", "NOTICE", "AUDIT", "CRIT", "TOP", "ALL", "NOTE", "REVIEW"} {
+	log.RegisterLevel(333, "shifty")
+	for _, n := range []string{"VERBOSE", "NOTICE", "AUDIT", "CRIT", "TOP", "ALL", "NOTE", "REVIEW", "SHIFTY"} {
 		customLevels[n] = log.RegisterLevel(levelCodes[n], strings.ToLower(n))
 	}
 }
